@@ -217,8 +217,62 @@ def merged_min_max(ctx):
     return out
 
 
+GETTER = r"(ColumnValues::get_(?:u64|i64|f64|str|bool)_at#\d+(?:@L\d+)?)"
+
+
+def prehash_nulls(ctx):
+    """the columnar grouped path partitions rows by this prehash alone: a null cell must not hash like a value"""
+    b = Builder(ctx, "sink-aggregate-group_key-{impl#2}-compute_prehash_from_columns.", "GroupKey::compute_prehash_from_columns", {})
+    E, q = b.E, ctx.q
+    r = b.mk("B-5", "GroupKey::compute_prehash_from_columns: whatever is hashed for a group-by cell is the payload of a Some(..) "
+                    "answer of one of the column's typed getters, hashed only on paths on which that getter answered Some; a cell "
+                    "for which every getter answered None is hashed as the None marker - so a NULL cell never shares a prehash "
+                    "(and with it a group) with a stored value such as 0")
+    out = [b.results["B-5"]]
+    if not r:
+        return out
+    hashes = [e for e in oblig.events(E, r"Hash>?::hash(::<.*>)?$") if e.args]
+    getters = oblig.events(E, r"ColumnValues::get_(u64|i64|f64|str|bool)_at$")
+    if not oblig.need_anchor(r, hashes, "Hash::hash calls") or not oblig.need_anchor(r, getters, "typed getters"):
+        return out
+    loop_getters = {g.dest_label for g in getters if g.args and "row_idx" in sym.describe(g.args[-1])}
+    checked = 0
+    for e in hashes:
+        v = e.args[0]
+        if isinstance(v, sym.Ref):
+            v, _ty = E.read_place(e.env, v.place)
+        text = " ".join(E.trace(v, e.env, depth=8) | {sym.describe(v)})
+        if "bucket_of" in text or re.search(r"const:.*None|Option::<i64>::None", text) or not re.search(r"get_\w+_at|unwrap", text):
+            continue                       # the time bucket / the explicit None marker / hasher plumbing
+        used = set(re.findall(GETTER + r":Some\.0", text))
+        loose = re.search(r"unwrap_or|unwrap_or_default|unwrap_or_else", text)
+        if loose or not used:
+            r.status = "violated"
+            r.witness = {"what": "a group-by cell is hashed from a getter result with a default substituted for None "
+                                 f"({loose.group(0) if loose else 'no Some(..) payload'}): a NULL cell gets the prehash of the default value and "
+                                 "the columnar grouped path merges the two groups",
+                         "span": f"{e.span[0]}:{e.span[1]}" if e.span else None, "call": "Hash::hash", "path": [], "model": {}}
+            return out
+        for g in used:
+            res, model = q.check(e.reach, z3.BitVec(f"disc({g})", 64) == 0, domain=E.domain)
+            r.queries += 1
+            checked += 1
+            if res == z3.sat:
+                r.status = "violated"
+                r.witness = {"what": f"a payload of {g} is hashed on a path on which that getter answered None",
+                             "span": f"{e.span[0]}:{e.span[1]}" if e.span else None, "call": "Hash::hash",
+                             "path": E.path_of_model(model)[-8:], "model": {}}
+                return out
+    r.nontrivial = checked >= 3
+    if checked < 3:
+        r.status = "inconclusive"
+        r.notes.append(f"only {checked} hashed getter payloads recognised")
+    return out
+
+
 def obligations(ctx):
     out = []
+    out += prehash_nulls(ctx)
     native_done = None
     for oid, ty in (("B-1s", "Sum"), ("B-1a", "Avg"), ("B-1n", "Min"), ("B-1x", "Max")):
         needle = "aggregate-ops-{impl#0}-update."
